@@ -24,6 +24,7 @@ import (
 	"strconv"
 	"strings"
 	"testing"
+	"time"
 
 	"github.com/lni/dragonboat/v4/internal/fileutil"
 	"github.com/lni/dragonboat/v4/internal/rsm"
@@ -442,11 +443,69 @@ func (s *ckSim) run(steps int) {
 			}
 		}
 	}
+	if s.tid%4 == 2 {
+		s.gcRace()
+	}
 	for i := 0; i < 12; i++ {
 		s.chunks.Tick()
 		s.emit(ckEv{Op: "Tick"})
 	}
 	s.durable()
+}
+
+// gcRace: the timeout collector (Chunk.Tick on the NodeHost's tick goroutine) overlaps the Add of a first
+// chunk for the same snapshot from another sender (a transport goroutine). The Add holds the snapshot's lock
+// when the collector arrives: the collector has already copied the table of tracked streams, waits for the
+// lock and then judges the stalled stream it saw. Whatever the order, the new stream must be tracked
+// afterwards (or have been refused): AddDuringTick in ChunksTrace.tla allows both orders, nothing else.
+func (s *ckSim) gcRace() {
+	a, b := s.streams[0], s.streams[1]
+	if s.removed || len(a.chunks) < 2 || len(b.chunks) < 2 {
+		return
+	}
+	s.deliver(a, 0, "", false, false)
+	key := chunkKey(a.chunks[0])
+	s.chunks.mu.Lock()
+	td, ok := s.chunks.tracked[key]
+	n := len(s.chunks.tracked)
+	s.chunks.mu.Unlock()
+	if !ok || td.first.From != a.from || uint64(n-1) >= maxConcurrentSlot {
+		return
+	}
+	t0 := td.tick
+	for {
+		next := s.chunks.getTick() + 1
+		if next%s.chunks.gcTick == 0 && next-t0 >= s.chunks.timeout {
+			break
+		}
+		s.chunks.Tick()
+		s.emit(ckEv{Op: "Tick"})
+	}
+	l := s.chunks.getSnapshotLock(key)
+	l.lock()
+	done := make(chan struct{})
+	go func() {
+		s.chunks.Tick()
+		close(done)
+	}()
+	time.Sleep(20 * time.Millisecond) // lets the collector reach the lock; the verdict does not depend on it
+	c := b.chunks[0]
+	c.Data = append([]byte{}, c.Data...)
+	before := s.notes
+	ret := s.chunks.addLocked(c)
+	l.unlock()
+	<-done
+	cnt := c.ChunkCount
+	if cnt == pb.LastChunkCount {
+		cnt = 0
+	}
+	ev := ckEv{Op: "AddDuringTick", S: b.id, From: b.from, Index: b.index, Cid: c.ChunkId, Count: cnt,
+		Main: !c.HasFileInfo, Last: c.IsLastChunk(), Ret: ret, Streamed: b.streamed}
+	if s.notes > before {
+		ev.Same = s.finalizedSame(b)
+	}
+	s.emit(ev)
+	s.deliver(b, 1, "", false, false)
 }
 
 // durable: power loss at the end of the trace. Every directory that carried a final name
